@@ -79,6 +79,19 @@ def run(prop, tier, seed, workdir):
     lines = []
     meta = {}
     cid = 0
+    # dmax sweeps: every dmax from 1 to ample for strings whose pieces need 2, 3 or 4 elements at once (Hangul LV / LVT,
+    # multi-element expansions, marks to reorder), so that "exactly the room this piece needs" occurs at every position
+    sweep = [[0xAC00], [0xAC01], [0xAC00, 0xAC01], [0xAC01, 0xAC00], [0xAC01, 0xAC01], [0x41, 0xAC00, 0xAC01], [0xAC00, 0xAC00, 0xAC01], [0xAC01, 0xAC01, 0xAC00, 0xAC01],
+             [0x1F9C], [0x41, 0x1F9C], [0x1F9C, 0x1F9C], [0x1E0A, 0x323], [0x61, 0x301, 0x323], [0xC5, 0x212B], [0x958, 0x958], [0x1100, 0x1161, 0x11A8, 0xAC00]]
+    for _ in range(30 if tier == "quick" else 300):
+        sweep.append([rnd.choice([0xAC00 + rnd.randint(0, 11171), 0xAC00 + 28 * rnd.randint(0, 398), 0x41, 0x1F9C, 0xE9]) for _ in range(rnd.randint(1, 5))])
+    for s in sweep:
+        nfd_len = len(unicodedata.normalize("NFD", "".join(chr(c) for c in s)))
+        for mode in (0, 1):
+            for dmax in range(1, nfd_len + 7):
+                cid += 1
+                meta[cid] = ("n", mode, dmax, s)
+                lines.append("%d n %d %d %d %s" % (cid, mode, dmax, len(s), " ".join(map(str, s))))
     for s in strings:
         for mode in (0, 1):
             nfd_len = len(unicodedata.normalize("NFD", "".join(chr(c) for c in s if c < 0x110000 and not 0xD800 <= c <= 0xDFFF)))
